@@ -543,6 +543,9 @@ class ForRangeLoop:
     var_name: str
     count: Union[int, str]
     body: List[object] = field(default_factory=list)
+    #: evaluate ``count`` once before the first iteration (Python's semantics) because
+    #: the loop body may change its value
+    hoist_count: bool = False
 
 
 @dataclass
